@@ -513,6 +513,9 @@ def kind_of(item):
 
 
 def port_range(environment):
+    """Reference split, taken from the documented one (iptables.PROD_PORT_* /
+    NONPROD_PORT_* and network_service._SET_BY_ENVIRONMENT): prod and uat are
+    prod-like, dev and qa are not."""
     if environment in ('uat', 'prod'):
         return runtime.PROD_PORT_LOW, runtime.PROD_PORT_HIGH
     return runtime.NONPROD_PORT_LOW, runtime.NONPROD_PORT_HIGH
